@@ -209,6 +209,12 @@ def case_fit(mon, xs, ys, names, pseed):
             cols = [cols[j] for j in keep]
             k = len(names)
             mon.cls("trailing-null-basis-function", ident)
+    # ... and a function whose values are all below 1e-9 without being zero
+    # (cos x at +-90 degrees: 6e-17) is null for the library's absolute
+    # tolerance but not for an exact solver: not judged
+    if any(0 < max(abs(float(c)) for c in col) < 1e-9 for col in cols):
+        mon.refusal("numerically-null-basis-function(not judged)")
+        return
     sol, detg = solve_exact(cols, Y)
     distinct = len(set(xs))
     if n <= 3:
@@ -437,6 +443,12 @@ def case_corr(mon, xs, ys, al, be, ga, de):
         mon.dev("degenerate->ZeroDivisionError",
                 dict(case, fn="correlation_coeff", returned=r),
                 key_corr_degenerate(None))
+        return
+    # data whose whole spread is below 1e-9 are constant for the library's
+    # documented absolute tolerance (1e-10): refusing them and answering are
+    # both in keeping with the property, neither is judged
+    if max(ys) - min(ys) < 1e-9 or max(xs) - min(xs) < 1e-9:
+        mon.refusal("corr-spread-below-absolute-tolerance(not judged)")
         return
     # relative conditioning of the two variances
     cx = float(sxx / (n * sum(v * v for v in X)))
